@@ -39,12 +39,19 @@ def run(ctx):
     r85(ctx, prog)
     r86(ctx, prog)
     r87(ctx, prog)
+    # R8.8 the first error wins also inside a function call: an error returned by a function of the context is the result of the call
+    # (it is not retried with a builtin, replaced or dropped) - the C09 R9.1 case analysis of the FunctionIdentifier arm over every
+    # outcome of Context::call_function, reported here
+    from rules.c09 import r91
+    from rules.c05 import _Renamed
+    r91(_Renamed(ctx, 'R8.8'), prog)
 
 
 class _BaseCallOnly:
     """forwards, under rule R8.7, only those reports of the C12 entry-point analysis that say how often the root evaluator is reached"""
-    def __init__(self, ctx):
+    def __init__(self, ctx, rule='R8.7'):
         self._ctx = ctx
+        self._rule = rule
         self.n = 0
 
     def __getattr__(self, n):
@@ -55,14 +62,14 @@ class _BaseCallOnly:
 
     def violation(self, rule, inst, code, *a, **k):
         if self._mine(code):
-            return self._ctx.violation('R8.7', inst, code, *a, **k)
+            return self._ctx.violation(self._rule, inst, code, *a, **k)
 
     def unrecognised(self, rule, inst, code, *a, **k):
-        return self._ctx.unrecognised('R8.7', inst, code, *a, **k)
+        return self._ctx.unrecognised(self._rule, inst, code, *a, **k)
 
     def check(self, cond, rule, inst, code, *a, **k):
         if self._mine(code):
-            return self._ctx.check(cond, 'R8.7', inst, code, *a, **k)
+            return self._ctx.check(cond, self._rule, inst, code, *a, **k)
 
     def ok(self, rule, inst, *a, **k):
         self.n += 1
@@ -74,12 +81,12 @@ class _BaseCallOnly:
         pass
 
 
-def r87(ctx, prog):
+def r87(ctx, prog, rule='R8.7', only_mut=False):
     """every node is evaluated exactly once also through the typed and the string-level entry points: each of them reaches the root
     evaluator exactly once on every path (the C12 entry-point analysis, of which only this part is reported here) - a wrapper that
     evaluates, looks at the result and evaluates again repeats every side effect of the expression"""
     from rules import c12
-    w = _BaseCallOnly(ctx)
+    w = _BaseCallOnly(ctx, rule)
     worlds = c12.value_worlds(prog)
     n = 0
     for f in prog.fns:
@@ -95,11 +102,13 @@ def r87(ctx, prog):
         has_ctx = '_with_context' in f.name
         if ty is None and has_ctx and g == 'node':
             continue
+        if only_mut and has_ctx and not mut:
+            continue
         n += 1
         c12.entry(w, prog, f, g, ty, bool(mut), has_ctx, worlds)
-    ctx.floor('R8.7', 'entry_points', n, 40)
+    ctx.floor(rule, 'entry_points', n, 25 if only_mut else 40)
     if w.n:
-        ctx.ok('R8.7', 'entry-points:evaluate-once', '%d entry point cases reach the root evaluator exactly once' % w.n)
+        ctx.ok(rule, 'entry-points:evaluate-once', '%d entry point cases reach the root evaluator (the mutable one for the `_mut` and the context-free forms) exactly once' % w.n)
 
 
 def evaluator_collect(ctx, prog, f, name, opname):
